@@ -65,6 +65,11 @@ def plan(tier, seed):
     for k, (osh, ssh) in enumerate(pairs):
         out.append({"slice": "session:" + ("P3x4" if tier == "quick" else "P4x4"), "osh": osh, "ssh": ssh, "menu": core,
                     "genall": True, "session": True, "unnamed": bool(k % 2)})
+    # the species tree rebuilt from the node objects of an earlier species tree (detached and handed out in the opposite
+    # order), with a fresh LowestCommonAncestor: whatever an earlier structure remembered about those objects is stale
+    for k, (osh, ssh) in enumerate(spaces.shape_pairs(3, 4, min_obj=2)):
+        out.append({"slice": "species-retopology:P3x4", "osh": osh, "ssh": ssh, "menu": core[:2], "genall": True,
+                    "session": True, "species_retopology": True, "unnamed": bool(k % 2)})
     return out
 
 
@@ -149,6 +154,10 @@ def run_shard(shard, tier, seed):
     counters = {"solver_runs": 0, "valid_mappings_enumerated": 0}
     sess = A.Session(O, S, unnamed=shard.get("unnamed", False)) if shard.get("session") else None
     pre = "session_" if sess else ""
+    if shard.get("species_retopology"):
+        sess.rebuild_species(S)
+        sess.rebuild_species(S)   # twice: the opposite order of the opposite order, on objects indexed twice before
+        sess.rebuild_species(S)
 
     def sjson(c):
         if sess is not None:
